@@ -4,6 +4,7 @@ package destroy
 // rendering as Coq terms of Corr/CorrDestroy.v, the recording StateDB wrapper and a tiny assembler.
 
 import (
+	"bytes"
 	"fmt"
 	"math/big"
 	"sort"
@@ -17,6 +18,7 @@ import (
 	vestexported "github.com/cosmos/cosmos-sdk/x/auth/vesting/exported"
 	vestingtypes "github.com/cosmos/cosmos-sdk/x/auth/vesting/types"
 	"github.com/ethereum/go-ethereum/common"
+	ethtypes "github.com/ethereum/go-ethereum/core/types"
 	ethcrypto "github.com/ethereum/go-ethereum/crypto"
 	"github.com/stretchr/testify/require"
 
@@ -64,8 +66,108 @@ type obsEntry struct {
 	Addr common.Address
 	Acc  *obsAcc
 	Bal  []*big.Int // per denomination index
-	Code int        // 0 = no (non-empty) code hash entry
-	Stor [][2]*big.Int
+	Code int        // 0 = no (non-empty) code hash entry; the keeper's view (GetCodeHash)
+	Stor [][2]*big.Int // the keeper's view (ForEachStorage)
+	// what the RAW x/evm store holds for the address (whole-store scan, keys split in Go; see rawScan)
+	RawCode int
+	RawStor [][2]*big.Int
+}
+
+// ---------------------------------------------------------------- the raw x/evm store
+
+// rawEntry is one key/value pair of the x/evm store under the storage (2) or code-hash (4) prefix, exactly as the
+// store iterator returns it.
+type rawEntry struct {
+	Key, Val []byte
+}
+
+const (
+	rawPfxStorage  = 2 // evmtypes.KeyPrefixStorage
+	rawPfxCodeHash = 4 // evmtypes.KeyPrefixCodeHash
+)
+
+// rawScan walks the WHOLE x/evm store through ctx (no prefix iterator, no keeper) and keeps the storage and code-hash keys.
+func rawScan(c *Chain, ctx sdk.Context) []rawEntry {
+	key := c.App.GetKVStoreKey()[evmtypes.StoreKey]
+	it := ctx.MultiStore().GetKVStore(key).Iterator(nil, nil)
+	defer it.Close()
+	var out []rawEntry
+	for ; it.Valid(); it.Next() {
+		k := it.Key()
+		if len(k) > 0 && (k[0] == rawPfxStorage || k[0] == rawPfxCodeHash) {
+			out = append(out, rawEntry{append([]byte{}, k...), append([]byte{}, it.Value()...)})
+		}
+	}
+	return out
+}
+
+// rawOwners lists the addresses that own at least one key of the scan.
+func rawOwners(raw []rawEntry) []common.Address {
+	seen := map[common.Address]bool{}
+	var out []common.Address
+	for _, e := range raw {
+		if len(e.Key) >= 21 {
+			a := common.BytesToAddress(e.Key[1:21])
+			if !seen[a] {
+				seen[a] = true
+				out = append(out, a)
+			}
+		}
+	}
+	return out
+}
+
+// rawView fills the raw part of an entry: every key that starts with 2 ++ address (slot = the rest of the key) and
+// the key 4 ++ address.
+func rawView(t *testing.T, raw []rawEntry, ct *codeTable, e *obsEntry) {
+	sp := append([]byte{rawPfxStorage}, e.Addr.Bytes()...)
+	ck := append([]byte{rawPfxCodeHash}, e.Addr.Bytes()...)
+	e.RawCode, e.RawStor = 0, nil
+	for _, kv := range raw {
+		if bytes.HasPrefix(kv.Key, sp) {
+			e.RawStor = append(e.RawStor, [2]*big.Int{new(big.Int).SetBytes(kv.Key[len(sp):]), new(big.Int).SetBytes(kv.Val)})
+		}
+		if bytes.Equal(kv.Key, ck) {
+			e.RawCode = codeIDOfHash(ct, kv.Val)
+		}
+	}
+	sort.Slice(e.RawStor, func(i, j int) bool { return e.RawStor[i][0].Cmp(e.RawStor[j][0]) < 0 })
+}
+
+// code id of a stored hash: the table's id, or -1 for a hash the driver never planted
+func codeIDOfHash(ct *codeTable, h []byte) int {
+	if id, ok := ct.byHash[common.BytesToHash(h)]; ok {
+		return id
+	}
+	return -1
+}
+
+// a key as (length, the key as a big-endian number in hex); the value as a number (storage) or a code id (code hash)
+func cqRaw(raw []rawEntry, ct *codeTable) string {
+	items := make([]string, len(raw))
+	for i, e := range raw {
+		v := "0x" + new(big.Int).SetBytes(e.Val).Text(16)
+		if e.Key[0] == rawPfxCodeHash {
+			v = fmt.Sprintf("%d", codeIDOfHash(ct, e.Val))
+			if strings.HasPrefix(v, "-") {
+				v = "(" + v + ")"
+			}
+		}
+		items[i] = fmt.Sprintf("(%d%%nat, 0x%s, %s)", len(e.Key), new(big.Int).SetBytes(e.Key).Text(16), v)
+	}
+	return "[" + strings.Join(items, ";\n      ") + "]"
+}
+
+func sameSlots(a, b [][2]*big.Int) bool {
+	if len(a) != len(b) {
+		return false
+	}
+	for i := range a {
+		if a[i][0].Cmp(b[i][0]) != 0 || a[i][1].Cmp(b[i][1]) != 0 {
+			return false
+		}
+	}
+	return true
 }
 
 type codeTable struct {
@@ -142,8 +244,9 @@ func observeAcc(t *testing.T, denoms []string, acc sdk.AccountI) *obsAcc {
 	return o
 }
 
-func observe(t *testing.T, c *Chain, ctx sdk.Context, denoms []string, ct *codeTable, a common.Address) obsEntry {
+func observe(t *testing.T, c *Chain, ctx sdk.Context, denoms []string, ct *codeTable, a common.Address, raw []rawEntry) obsEntry {
 	e := obsEntry{Addr: a}
+	rawView(t, raw, ct, &e)
 	e.Acc = observeAcc(t, denoms, c.App.AccountKeeper.GetAccount(ctx, a.Bytes()))
 	all := c.App.BankKeeper.GetAllBalances(ctx, a.Bytes())
 	var ok bool
@@ -165,13 +268,24 @@ func observe(t *testing.T, c *Chain, ctx sdk.Context, denoms []string, ct *codeT
 
 // ---------------------------------------------------------------- Coq rendering
 
-func az(a common.Address) string { return new(big.Int).SetBytes(a.Bytes()).String() }
+// numbers as Coq terms: hexadecimal literals for big ones (coqc reads them several times faster than decimal)
+func cz(b *big.Int) string {
+	if b.Sign() < 0 {
+		return "(" + b.String() + ")"
+	}
+	if b.BitLen() <= 40 {
+		return b.String()
+	}
+	return "0x" + b.Text(16)
+}
+
+func az(a common.Address) string { return cz(new(big.Int).SetBytes(a.Bytes())) }
 
 func cqCoins(v []*big.Int) string {
 	var items []string
 	for i, x := range v {
 		if x != nil && x.Sign() != 0 {
-			items = append(items, fmt.Sprintf("(%d, %s)", i, x.String()))
+			items = append(items, fmt.Sprintf("(%d, %s)", i, cz(x)))
 		}
 	}
 	return "[" + strings.Join(items, "; ") + "]"
@@ -199,7 +313,7 @@ func cqAcc(a *obsAcc) string {
 func cqEntry(e obsEntry) string {
 	var st []string
 	for _, kv := range e.Stor {
-		st = append(st, fmt.Sprintf("(%s, %s)", kv[0].String(), kv[1].String()))
+		st = append(st, fmt.Sprintf("(%s, %s)", cz(kv[0]), cz(kv[1])))
 	}
 	return fmt.Sprintf("(%s, %s, %s, %d, [%s])", az(e.Addr), cqAcc(e.Acc), cqCoins(e.Bal), e.Code, strings.Join(st, "; "))
 }
@@ -212,71 +326,89 @@ func cqEntries(es []obsEntry) string {
 	return "[" + strings.Join(items, ";\n      ") + "]"
 }
 
-func entryEqual(a, b obsEntry) bool { return cqEntry(a) == cqEntry(b) }
+// the keeper's view and the raw view
+func entryFull(e obsEntry) string {
+	var st []string
+	for _, kv := range e.RawStor {
+		st = append(st, kv[0].String()+"="+kv[1].String())
+	}
+	return fmt.Sprintf("%s raw{code %d, slots [%s]}", cqEntry(e), e.RawCode, strings.Join(st, " "))
+}
+
+func entryEqual(a, b obsEntry) bool { return entryFull(a) == entryFull(b) }
 
 // ---------------------------------------------------------------- recording StateDB wrapper
 
+// recOp is one recorded operation as a term of the model's [xop] type, with the addresses it names.
+type recOp struct {
+	coq   string
+	addrs []common.Address
+}
+
 // recDB forwards everything to the real cStateDb and records the state-changing calls (before forwarding,
-// so that a panicking call is the last one recorded) as terms of the model's [op] type.
+// so that a panicking call is the last one recorded) as terms of the model's [op] type. The custom precompiled
+// contracts write to bank through the keepers on GetCurrentContext(), which no StateDB method sees; what they did
+// is read off the EVM logs they add through this wrapper (ERC-20 Transfer, staking Delegate), in trace order.
 type recDB struct {
 	evmvm.CStateDB
 	t      *testing.T
 	ct     *codeTable
-	log    []string
+	log    []recOp
 	nsnaps int
+	cpc    *cpcEnv
 }
 
-func (r *recDB) add(s string) { r.log = append(r.log, s) }
-func (r *recDB) take() []string {
+func (r *recDB) add(s string, addrs ...common.Address) {
+	r.log = append(r.log, recOp{"XOp (" + s + ")", addrs})
+}
+func (r *recDB) addForeign(s string, addrs ...common.Address) {
+	r.log = append(r.log, recOp{s, addrs})
+}
+func (r *recDB) take() []recOp {
 	l := r.log
 	r.log = nil
 	return l
 }
 
 func (r *recDB) CreateAccount(a common.Address) {
-	r.add("CreateAccount " + az(a))
+	r.add("CreateAccount "+az(a), a)
 	r.CStateDB.CreateAccount(a)
 }
 
 func (r *recDB) DestroyAccount(a common.Address) {
-	r.add("DestroyAccount " + az(a))
+	r.add("DestroyAccount "+az(a), a)
 	r.CStateDB.DestroyAccount(a)
 }
 
-func cqSigned(b *big.Int) string {
-	if b.Sign() < 0 {
-		return "(" + b.String() + ")"
-	}
-	return b.String()
-}
+func cqSigned(b *big.Int) string { return cz(b) }
 
 func (r *recDB) AddBalance(a common.Address, b *big.Int) {
-	r.add(fmt.Sprintf("AddBalance %s %s", az(a), cqSigned(b)))
+	r.add(fmt.Sprintf("AddBalance %s %s", az(a), cqSigned(b)), a)
 	r.CStateDB.AddBalance(a, b)
 }
 
 func (r *recDB) SubBalance(a common.Address, b *big.Int) {
-	r.add(fmt.Sprintf("SubBalance %s %s", az(a), cqSigned(b)))
+	r.add(fmt.Sprintf("SubBalance %s %s", az(a), cqSigned(b)), a)
 	r.CStateDB.SubBalance(a, b)
 }
 
 func (r *recDB) SetNonce(a common.Address, n uint64) {
-	r.add(fmt.Sprintf("SetNonce %s %d", az(a), n))
+	r.add(fmt.Sprintf("SetNonce %s %d", az(a), n), a)
 	r.CStateDB.SetNonce(a, n)
 }
 
 func (r *recDB) SetCode(a common.Address, code []byte) {
-	r.add(fmt.Sprintf("SetCode %s %d", az(a), r.ct.id(code)))
+	r.add(fmt.Sprintf("SetCode %s %d", az(a), r.ct.id(code)), a)
 	r.CStateDB.SetCode(a, code)
 }
 
 func (r *recDB) SetState(a common.Address, k, v common.Hash) {
-	r.add(fmt.Sprintf("SetState %s %s %s", az(a), k.Big().String(), v.Big().String()))
+	r.add(fmt.Sprintf("SetState %s %s %s", az(a), cz(k.Big()), cz(v.Big())), a)
 	r.CStateDB.SetState(a, k, v)
 }
 
 func (r *recDB) Suicide(a common.Address) bool {
-	r.add("Suicide " + az(a))
+	r.add("Suicide "+az(a), a)
 	return r.CStateDB.Suicide(a)
 }
 
@@ -292,6 +424,31 @@ func (r *recDB) RevertToSnapshot(id int) {
 	r.add(fmt.Sprintf("RevertTo %s", cqSigned(big.NewInt(int64(id)))))
 	r.CStateDB.RevertToSnapshot(id)
 	r.nsnaps = id + 1
+}
+
+var (
+	topicErc20Transfer   = common.HexToHash("0xddf252ad1be2c89b69c2b068fc378daa952ba7f163c4a11628f55a4df523b3ef")
+	topicStakingDelegate = common.HexToHash("0x510b11bb3f3c799b11307c01ab7db0d335683ef5b2da98f7697de744f465eacc")
+)
+
+// AddLog: the precompiles report their bank writes as EVM logs; a log that is added was preceded by the write
+// (a refused write returns an error before the log, and the interpreter reverts the frame).
+func (r *recDB) AddLog(l *ethtypes.Log) {
+	if r.cpc != nil && len(l.Topics) == 3 {
+		amt := new(big.Int).SetBytes(l.Data)
+		x, y := common.BytesToAddress(l.Topics[1].Bytes()), common.BytesToAddress(l.Topics[2].Bytes())
+		if d, ok := r.cpc.denomOf[l.Address]; ok && l.Topics[0] == topicErc20Transfer && amt.Sign() != 0 && x != y {
+			if y == (common.Address{}) {
+				r.addForeign(fmt.Sprintf("XBurn %s %d %s true", az(x), d, cz(amt)), x)
+			} else {
+				r.addForeign(fmt.Sprintf("XSend %s %s %d %s true", az(x), az(y), d, cz(amt)), x, y)
+			}
+		}
+		if l.Address == r.cpc.staking && l.Topics[0] == topicStakingDelegate && amt.Sign() != 0 {
+			r.addForeign(fmt.Sprintf("XDelegate %s %s 0 %s true", az(x), az(r.cpc.pool), cz(amt)), x, r.cpc.pool)
+		}
+	}
+	r.CStateDB.AddLog(l)
 }
 
 // ---------------------------------------------------------------- assembler
@@ -322,6 +479,30 @@ func (a *asm) call(to common.Address, v *big.Int) *asm {
 }
 func (a *asm) selfdestruct(b common.Address) *asm { return a.pushAddr(b).op(0xff) }
 func (a *asm) sstore(k, v byte) *asm              { return a.push1(v).push1(k).op(0x55) }
+func (a *asm) sstoreBig(k, v *big.Int) *asm       { return a.push(v).push(k).op(0x55) }
+
+// CALL to with value v and the given calldata (written to memory from offset 0), all gas; result popped
+func (a *asm) callData(to common.Address, v *big.Int, data []byte) *asm {
+	for off := 0; off < len(data); off += 32 {
+		var w [32]byte
+		copy(w[:], data[off:])
+		a.b = append(a.b, 0x7f)
+		a.b = append(a.b, w[:]...)
+		a.push(big.NewInt(int64(off))).op(0x52)
+	}
+	a.push1(0).push1(0).push(big.NewInt(int64(len(data)))).push1(0).push(v).pushAddr(to)
+	return a.op(0x5a, 0xf1, 0x50)
+}
+
+// reads that make the interpreter ask the StateDB about an address: EXTCODEHASH (asks Empty), BALANCE, EXTCODESIZE
+func (a *asm) probe(x common.Address, kind int) *asm {
+	return a.pushAddr(x).op([]byte{0x3f, 0x31, 0x3b}[kind%3], 0x50)
+}
+
+// CREATE a child whose init code is PUSH20 x; SELFDESTRUCT: the beneficiary is probed for emptiness (gas) and touched
+func (a *asm) createSD(x common.Address, endow *big.Int) *asm {
+	return a.create((&asm{}).selfdestruct(x).b, endow)
+}
 func (a *asm) revert() *asm                       { return a.push1(0).push1(0).op(0xfd) }
 func (a *asm) stop() *asm                         { return a.op(0x00) }
 
@@ -334,9 +515,9 @@ func (a *asm) initToMem(init []byte) *asm {
 	a.b = append(a.b, init...)
 	return a.push1(0).op(0x52)
 }
-func (a *asm) create2(init []byte, endow *big.Int, salt byte) *asm {
+func (a *asm) create2(init []byte, endow *big.Int, salt *big.Int) *asm {
 	a.initToMem(init)
-	a.push1(salt).push1(byte(len(init))).push1(byte(32 - len(init))).push(endow)
+	a.push(salt).push1(byte(len(init))).push1(byte(32 - len(init))).push(endow)
 	return a.op(0xf5, 0x50)
 }
 func (a *asm) create(init []byte, endow *big.Int) *asm {
